@@ -106,19 +106,60 @@ Theorem C11_no_key_without_right : forall w ops,
 Proof. exact no_key_without_right. Qed.
 Print Assumptions C11_no_key_without_right.
 
-(* The response to a request does not depend on the history that preceded it on the cache. *)
-Theorem C11_order_independent : forall w ops p names r,
-  wf_world w = true -> forallb wf_op ops = true -> wf_proxy p = true ->
-  fst (generate w (run_cache w [] ops) p names r) = fst (generate w [] p names r).
-Proof. exact order_independent. Qed.
-Print Assumptions C11_order_independent.
+(* Full strength: "the response to a request does not depend on the history that preceded it on the
+   cache" is FALSE of the code (finding C11-pkp-format-follows-first-requester): the cache key carries the
+   hash of the provider in the proxy's own ProxyConfig, the secret is built with
+   ProxyConfigOrDefault(mesh default).  With a mesh-default provider, a proxy that sends no ProxyConfig and
+   one that sends a ProxyConfig without provider share the key but are served different encodings. *)
+Definition ex_fmt_world : world :=
+  {| clusters := ["c1"]; config_cluster := "c1";
+     secrets := [ {| s_cluster := "c1"; s_ns := "a"; s_name := "tls"; s_tls := true; s_ca := false |} ];
+     configmaps := []; authz := [("c1", "a", "gw")]; mesh_pkp := 1 |}.
+Definition ex_fmt_proxy (cfg : option N) : proxy :=
+  {| verified := Some {| id_td := "cluster.local"; id_ns := "a"; id_sa := "gw" |};
+     p_cluster := "c1"; p_cfg := cfg; p_pkp := ""; p_refs := None |}.
 
-(* All responses of a history are, one by one, the answers an empty cache would give. *)
-Theorem C11_history_is_pointwise : forall w ops,
+Theorem C11_order_independent_refuted : exists w ops p names r,
+  wf_world w = true /\ forallb wf_op ops = true /\ wf_proxy p = true /\
+  fst (generate w (run_cache w [] ops) p names r) <> fst (generate w [] p names r).
+Proof.
+  exists ex_fmt_world, [OGen (ex_fmt_proxy None) ["kubernetes://tls"] (RForced true)],
+         (ex_fmt_proxy (Some 0%N)), ["kubernetes://tls"], (RForced true).
+  vm_compute. repeat split; discriminate.
+Qed.
+Print Assumptions C11_order_independent_refuted.
+
+(* What holds.  (a) Up to the encoding of the key (inline / cryptomb / qat) the response never depends
+   on the history: same names answered, with the same certificate / key / CA of the same stored object. *)
+Theorem C11_order_independent_partial : forall w ops p names r,
+  wf_world w = true -> forallb wf_op ops = true -> wf_proxy p = true ->
+  map erase (fst (generate w (run_cache w [] ops) p names r)) = map erase (fst (generate w [] p names r)).
+Proof. exact order_independent_erased. Qed.
+Print Assumptions C11_order_independent_partial.
+
+(* (b) Exactly, whenever the encoding each proxy is entitled to is a function F of the hash component of
+   its cache keys (e.g. every proxy sends its ProxyConfig, or the mesh default has no provider). *)
+Theorem C11_order_independent_same_format_partial : forall F w ops p names r,
+  wf_world w = true -> forallb wf_op ops = true -> wf_proxy p = true ->
+  forallb (fmt_op F w) ops = true -> fmt_by_hash F w p = true ->
+  fst (generate w (run_cache w [] ops) p names r) = fst (generate w [] p names r).
+Proof. exact order_independent_fmt. Qed.
+Print Assumptions C11_order_independent_same_format_partial.
+
+(* All responses of a history are, one by one, the answers an empty cache would give (up to encoding;
+   exactly under the premise of (b)). *)
+Theorem C11_history_is_pointwise_partial : forall w ops,
   wf_world w = true -> forallb wf_op ops = true ->
+  map (map erase) (run w [] ops) =
+  map (fun g => match g with (p, n, r) => map erase (fst (generate w [] p n r)) end) (gens ops).
+Proof. exact run_is_pointwise_erased. Qed.
+Print Assumptions C11_history_is_pointwise_partial.
+
+Theorem C11_history_is_pointwise_same_format_partial : forall F w ops,
+  wf_world w = true -> forallb wf_op ops = true -> forallb (fmt_op F w) ops = true ->
   run w [] ops = map (fun g => match g with (p, n, r) => fst (generate w [] p n r) end) (gens ops).
-Proof. exact run_is_pointwise. Qed.
-Print Assumptions C11_history_is_pointwise.
+Proof. exact run_is_pointwise_fmt. Qed.
+Print Assumptions C11_history_is_pointwise_same_format_partial.
 
 (* Never across namespaces: after any history, a proxy without verified references receives private
    keys only from its own verified namespace, from the cluster it reads, and only when authorised. *)
@@ -155,24 +196,25 @@ Print Assumptions C11_kube_authorize_history_partial.
 Definition ex_world : world :=
   {| clusters := ["c1"]; config_cluster := "c1";
      secrets := [ {| s_cluster := "c1"; s_ns := "a"; s_name := "tls"; s_tls := true; s_ca := false |} ];
-     configmaps := []; authz := [("c1", "a", "gw")] |}.
+     configmaps := []; authz := [("c1", "a", "gw")]; mesh_pkp := 0 |}.
 Definition ex_proxy (ns sa : string) : proxy :=
   {| verified := Some {| id_td := "cluster.local"; id_ns := ns; id_sa := sa |};
-     p_cluster := "c1"; p_pkp := ""; p_refs := None |}.
-Definition ex_anon : proxy := {| verified := None; p_cluster := "c1"; p_pkp := ""; p_refs := None |}.
+     p_cluster := "c1"; p_cfg := Some 0%N; p_pkp := ""; p_refs := None |}.
+Definition ex_anon : proxy := {| verified := None; p_cluster := "c1"; p_cfg := None; p_pkp := ""; p_refs := None |}.
 Definition ex_ops : list op :=
   [ OGen (ex_proxy "a" "gw") ["kubernetes://tls"] (RForced true);
     OGen (ex_proxy "a" "default") ["kubernetes://tls"] (RForced true);
     OGen (ex_proxy "b" "gw") ["kubernetes://a/tls"; "kubernetes://tls"] (RForced true);
     OGen ex_anon ["kubernetes://tls"; "kubernetes://a/tls"] (RForced true) ].
 
-Example C11_example_hypotheses : wf_world ex_world = true /\ forallb wf_op ex_ops = true.
+Example C11_example_hypotheses :
+  wf_world ex_world = true /\ forallb wf_op ex_ops = true /\ forallb (fmt_op (fun _ => 0%N) ex_world) ex_ops = true.
 Proof. vm_compute. auto. Qed.
 
 Example C11_example_history :
-  run ex_world [] ex_ops = [ [("kubernetes://tls", CTls ("c1", "a", "tls"))]; []; []; [] ]
+  run ex_world [] ex_ops = [ [("kubernetes://tls", CTls ("c1", "a", "tls") 0)]; []; []; [] ]
   /\ cache_get (cache_key {| sr_type := TKube; sr_name := "tls"; sr_ns := "a"; sr_rn := "kubernetes://tls"; sr_cluster := "c1" |} "")
-               (run_cache ex_world [] ex_ops) = Some ("kubernetes://tls", CTls ("c1", "a", "tls")).
+               (run_cache ex_world [] ex_ops) = Some ("kubernetes://tls", CTls ("c1", "a", "tls") 0).
 Proof. vm_compute. auto. Qed.
 
 Example C11_example_kube :
